@@ -756,7 +756,18 @@ Commit(mode, F) ==
                        /\ \E f \in File : \E n \in DOMAIN nt[f] :
                              /\ nt[f][n] \notin LinesOf(wt[f]) /\ nt[f][n] \notin LinesOf(HeadTree[f])
                              /\ truth[nt[f][n][1]] # H
-                    THEN {"index_only_lines_unattributed"} ELSE {}))
+                    THEN {"index_only_lines_unattributed"} ELSE {})
+                   \* ... and the other way round: a work-tree line that replaces, at the same offset of an unstaged
+                   \* hunk, a line this commit adds "counts as committed" (meant for: staged, then tweaked).  When the
+                   \* committed line is somebody else's text (an older version re-committed from the index) it gets
+                   \* the author of the work-tree line: "replaced_line_takes_worktree_author".
+                   \cup
+                   (IF "replaced_line_takes_worktree_author" \in Dev
+                       /\ \E f \in File :
+                             /\ \E p \in DOMAIN nt[f] : /\ nt[f][p] \notin LinesOf(wt[f]) /\ nt[f][p] \notin LinesOf(HeadTree[f])
+                                                        /\ truth[nt[f][p][1]] = H
+                             /\ \E n \in DOMAIN wt[f] : wt[f][n] \notin LinesOf(nt[f]) /\ truth[wt[f][n][1]] # H
+                    THEN {"replaced_line_takes_worktree_author"} ELSE {}))
   /\ dirty' = [f \in File |-> IF nt[f] = wt[f] THEN None ELSE dirty[f]]
   /\ ops' = {}
   /\ UNCHANGED <<truth, nu, der, stash, snote>>
